@@ -670,3 +670,25 @@ def ob_e(ob):
                 ob.verdict(v, lab)
     x, y = z3.Reals("x y")
     expect_refuted(ob, x == 1, [x + y == 1, y > 0], "twin: an occupation lost to a padded slot is noticed", "nra")
+
+
+def replay_xl_kernel(**kw):
+    from . import krylov as K
+
+    return K.replay_kernel(**kw)
+
+
+@obligation(PID, "f", title="rank-m kernel update of the Krylov XL-BOMD variant (EnergyXL.forward, max_rank branch) is the published one: the Krylov vectors are orthonormal, start along D - P and stay in the Krylov space of the response; the small system solved is the normal-equation system of min |sum x_q W_q - (D - P)| with W_q = response(V_q) - V_q; the second time derivative returned is -sum x_q V_q = (I - response)^-1 (D - P) on that space; the reported relative residual is that of the rank-m model — for every residual and every linear response")
+def ob_f(ob):
+    from seqm.dynamics import xlbomd as XB
+    from . import krylov as K
+
+    ob.encodes(XB.EnergyXL.forward)
+    ob.bound("max_rank 2 and 3 (thorough: also a batch of 2 molecules at max_rank 2); symmetric matrices confined to a 2x2 block (3-dimensional space, so rank 3 is the full space); residual D - P: 3 symbolic reals per molecule; response: an arbitrary linear map on that space (9 symbolic reals per molecule); err_threshold 0: every early exit (rank-m model exact) is explored as its own path")
+    ob.assume("hcore, fock, Fermi_Q, G, Canon_DM_PRT and the energy terms are recorders: Fermi_Q returns P + (symbolic residual), Canon_DM_PRT(G(v)) returns the symbolic linear map applied to v")
+    ob.assume("torch.linalg.solve(A, b) is a vector of fresh unknowns constrained by A x = b (A non-singular is torch's precondition); claims are identities in those unknowns")
+    ob.assume("no breakdown: D != P and every normalisation divides by a non-zero norm (0/0 is NaN in the code)")
+    ob.assume("a branch whose feasibility the solver cannot settle within 10 s is explored as feasible (over-approximation)")
+    ob.note("sign: with J = response - I the published equation of motion is d2P/dt2 = -omega^2 J^-1 (D - P); without response (J = -I) the claim reduces to d2P/dt2 = omega^2 (D - P)")
+    cfg = [(2, 1), (3, 1)] + ([(2, 2)] if ob.tier == "thorough" else [])
+    K.obligation_body(ob, "xl", cfg, 30 if ob.tier != "thorough" else 120)
